@@ -38,7 +38,27 @@ pub enum HFault {
     Override { rev: usize, key: String, val: Val },
     /// the /Length reference of a stream retargeted
     LenRef { rev: usize, num: u32, target: u32 },
+    /// the data of one stream object replaced by a small hostile payload (a PostScript calculator
+    /// program, a CMap, a content stream, an object-stream header)
+    Payload { rev: usize, num: u32, data: Vec<u8> },
+    /// one dictionary entry removed (a required entry that is absent)
+    DropKey { site: Site },
 }
+
+const PAYLOADS: [&str; 40] = [
+    // PostScript calculator programs
+    "{ 5 1 roll }", "{ 1 5 roll }", "{ 2 -2147483648 roll }", "{ 0 0 roll }", "{ 3 index }", "{ -1 index }", "}{", "{", "{ 1e39 1e39 mul 1 roll }",
+    "{ 2147483647 2147483647 roll }", "{ dup dup dup dup roll }", "{ pop pop pop }", "{ 1 0 roll 0 index }", "{ 2 1e39 roll }",
+    // ToUnicode CMaps
+    "1 beginbfrange <00> <FF> <> endbfrange", "1 beginbfrange <0000> <FFFF> [ ] endbfrange", "1 beginbfchar <> <0041> endbfchar",
+    "1 beginbfrange <FFFF> <0000> <0041> endbfrange", "1 beginbfrange <0000> <FFFF> <D800> endbfrange", "1 beginbfrange <0000> <0002> [ <0041> ] endbfrange",
+    "1 beginbfchar <000000> <0041> endbfchar", "1 beginbfrange <0000> <FFFF> <DBFFDFFF> endbfrange", "beginbfrange <00>", "1 beginbfrange <41> <42> <> <43> endbfrange",
+    // content streams
+    "BI /W -1 /H 1 /BPC 8 /CS /G ID x EI", "1 2 3 4 5 6 7 8 9 cm", "[ (a) 1e39 ] TJ", "/F1 -1 Tf", "BT ET ET Q Q Q", "BI /F /Fl /W 1 /H 1 ID \n EI", "BI ID", "(unterminated",
+    "1 0 0 1 0 0 cm cm cm cm", "/X Do /X Do /X Do", "BI /W 2147483647 /H 2147483647 /BPC 8 /CS /RGB ID x EI", "q q q q q q q q q q q q q q q q q q q q q q q q q q q q q q q q q",
+    // object stream headers
+    "5 0 6 99999 7 5", "99999999999999999999 0", "5 18446744073709551615", "5 0 6 0 7 0",
+];
 
 const BOUNDARIES: [&str; 6] = ["-1", "0", "1", "2147483647", "4294967295", "18446744073709551615"];
 
@@ -60,6 +80,8 @@ impl HFault {
             HFault::Nest { .. } => "nest",
             HFault::Override { .. } => "xref_field",
             HFault::LenRef { .. } => "length_ref",
+            HFault::Payload { .. } => "payload",
+            HFault::DropKey { .. } => "drop_key",
         }
     }
     pub fn to_json(&self) -> J {
@@ -69,6 +91,8 @@ impl HFault {
             HFault::Nest { site, depth } => json!({"kind": "nest", "site": site_json(site), "depth": depth}),
             HFault::Override { rev, key, val } => json!({"kind": "xref_field", "rev": rev, "key": key, "val": val.to_json()}),
             HFault::LenRef { rev, num, target } => json!({"kind": "length_ref", "rev": rev, "num": num, "target": target}),
+            HFault::Payload { rev, num, data } => json!({"kind": "payload", "rev": rev, "num": num, "data": String::from_utf8_lossy(data)}),
+            HFault::DropKey { site } => json!({"kind": "drop_key", "site": site_json(site)}),
         }
     }
     pub fn from_json(j: &J) -> Option<HFault> {
@@ -78,6 +102,8 @@ impl HFault {
             "nest" => HFault::Nest { site: site_from(j.get("site")?)?, depth: j.get("depth")?.as_u64()? as usize },
             "xref_field" => HFault::Override { rev: j.get("rev")?.as_u64()? as usize, key: j.get("key")?.as_str()?.to_string(), val: Val::from_json(j.get("val")?)? },
             "length_ref" => HFault::LenRef { rev: j.get("rev")?.as_u64()? as usize, num: j.get("num")?.as_u64()? as u32, target: j.get("target")?.as_u64()? as u32 },
+            "payload" => HFault::Payload { rev: j.get("rev")?.as_u64()? as usize, num: j.get("num")?.as_u64()? as u32, data: j.get("data")?.as_str()?.as_bytes().to_vec() },
+            "drop_key" => HFault::DropKey { site: site_from(j.get("site")?)? },
             _ => return None,
         })
     }
@@ -143,6 +169,21 @@ fn replace_at(v: &mut Val, path: &[PathElem], new: Val) -> bool {
     }
 }
 
+fn drop_at(v: &mut Val, path: &[PathElem]) -> bool {
+    match (path, v) {
+        ([PathElem::Key(k)], Val::Dict(d)) => {
+            let n = d.len();
+            d.retain(|(kk, _)| kk != k);
+            d.len() != n
+        }
+        ([PathElem::Key(k), rest @ ..], Val::Dict(d)) => match d.iter_mut().find(|(kk, _)| kk == k) {
+            Some((_, x)) => drop_at(x, rest),
+            None => false,
+        },
+        _ => false,
+    }
+}
+
 /// every single fault of a template
 pub fn single_faults(spec: &DocSpec) -> Vec<HFault> {
     let mut out = vec![];
@@ -192,6 +233,20 @@ pub fn single_faults(spec: &DocSpec) -> Vec<HFault> {
             if let Slot::Direct { body: Body::Stream { .. }, .. } = slot {
                 for &t in &targets {
                     out.push(HFault::LenRef { rev: ri, num, target: t });
+                }
+                for pl in PAYLOADS {
+                    out.push(HFault::Payload { rev: ri, num, data: pl.as_bytes().to_vec() });
+                }
+            }
+            // every dictionary entry (top level and one level down) removed
+            if let Some(Val::Dict(d)) = slot_val(slot) {
+                for (k, v) in &d {
+                    out.push(HFault::DropKey { site: Site { rev: ri, num, path: vec![PathElem::Key(k.clone())] } });
+                    if let Val::Dict(inner) = v {
+                        for (k2, _) in inner {
+                            out.push(HFault::DropKey { site: Site { rev: ri, num, path: vec![PathElem::Key(k.clone()), PathElem::Key(k2.clone())] } });
+                        }
+                    }
                 }
             }
         }
@@ -259,6 +314,22 @@ pub fn apply(spec: &DocSpec, faults: &[HFault]) -> DocSpec {
             HFault::LenRef { rev, num, target } => {
                 if let Some(Slot::Direct { body: Body::Stream { len_ref, .. }, .. }) = s.revisions.get_mut(*rev).and_then(|r| r.slots.get_mut(num)) {
                     *len_ref = Some(*target);
+                }
+            }
+            HFault::Payload { rev, num, data } => {
+                if let Some(Slot::Direct { body: Body::Stream { dict, data: d, .. }, .. }) = s.revisions.get_mut(*rev).and_then(|r| r.slots.get_mut(num)) {
+                    // the payload is stored as is: filters of the template stream are dropped
+                    dict.retain(|(k, _)| k != "Filter" && k != "DecodeParms");
+                    *d = data.clone();
+                }
+            }
+            HFault::DropKey { site } => {
+                if let Some(slot) = s.revisions.get_mut(site.rev).and_then(|r| r.slots.get_mut(&site.num)) {
+                    if let Some(mut v) = slot_val(slot) {
+                        if drop_at(&mut v, &site.path) {
+                            set_slot_val(slot, v);
+                        }
+                    }
                 }
             }
         }
@@ -360,7 +431,7 @@ impl Check for C14 {
         CheckInfo {
             id: "C14",
             level: "fault_enumeration",
-            rule: "one case = a typed template (page tree; name tree + number tree + outlines; Type0/CID/simple fonts with /W, /Differences, ToUnicode; colour spaces with all four function types; stream /Length references, predictors, LZW, CCITT/DCT image parameters; hand-written object stream with /Extends under an xref stream; two-revision files with classic and stream sections; /Encrypt dictionaries; the 'rich' document) + structure-aware at-rest faults written through the harness's writer: retarget (every reference field x every object incl. itself, object 0 and an undefined number), boundary (every numeric field x {-1, 0, 1, 2^31-1, 2^32-1, 2^64-1}), nest (25 levels), stream /Length reference retargeted, hostile /Size /Prev (incl. self-loop) /Root /W /Index /Length of trailer and xref stream; x {strict, tolerant} x {cached, uncached} x {2 MiB, 8 MiB stack} x {no bytes, some bytes before the header}; walked by the C01 walker under the same meters in a supervised worker process. Enumerated part: the complete single-fault space of all templates (both tiers); plus seeded cases with 2-3 simultaneous faults (100 000 quick, 2 000 000 thorough). Non-trivial = outcome differs from the unfaulted template; distinct = hash of (template, faults, configuration)",
+            rule: "one case = a typed template (page tree; name tree + number tree + outlines; Type0/CID/simple fonts with /W, /Differences, ToUnicode; colour spaces with all four function types; stream /Length references, predictors, LZW, CCITT/DCT image parameters; hand-written object stream with /Extends under an xref stream; two-revision files with classic and stream sections; /Encrypt dictionaries; the 'rich' document) + structure-aware at-rest faults written through the harness's writer: retarget (every reference field x every object incl. itself, object 0 and an undefined number), boundary (every numeric field x {-1, 0, 1, 2^31-1, 2^32-1, 2^64-1}), nest (25 levels), stream /Length reference retargeted, stream data replaced by 40 small hostile payloads (PostScript calculator programs, CMaps, content streams, object-stream headers), every dictionary entry removed, hostile /Size /Prev (incl. self-loop) /Root /W /Index /Length of trailer and xref stream; x {strict, tolerant} x {cached, uncached} x {2 MiB, 8 MiB stack} x {no bytes, some bytes before the header}; walked by the C01 walker under the same meters in a supervised worker process. Enumerated part: the complete single-fault space of all templates (both tiers); plus seeded cases with 2-3 simultaneous faults (100 000 quick, 2 000 000 thorough). Non-trivial = outcome differs from the unfaulted template; distinct = hash of (template, faults, configuration)",
             assumptions: vec![
                 "planting the hostile structure is generation (stated as such); the simulation part is the resource side: stack size, allocator cap and meters, log-event budget, worker process death".into(),
                 "same resource bounds as C01".into(),
@@ -369,7 +440,7 @@ impl Check for C14 {
             components_real: vec!["pdf crate (all of it)", "globalcache SyncCache", "process allocator (metered) and thread stacks of the stated sizes"],
             components_stub: vec![],
             per_run_timeout_s: 20,
-            required_probes: vec!["fault_retarget", "fault_boundary", "fault_nest", "fault_xref_field", "fault_length_ref", "outcome_changed"],
+            required_probes: vec!["fault_retarget", "fault_boundary", "fault_nest", "fault_xref_field", "fault_length_ref", "fault_payload", "fault_drop_key", "outcome_changed"],
             exhaustive: false,
         }
     }
